@@ -19,10 +19,17 @@ with open('/verif/seeded/RESULTS.md', 'w') as f:
     f.write("Each change was produced by an independent sub-agent that saw only the property text, compiles, passes the\n")
     f.write("repository's 134 tests, and comes with a demonstration that fails with the change and passes without it\n")
     f.write("(confirmed by `seed_verify.sh` in a scratch worktree). `-mN` = round 1, `-hN` = round 2 (designed to stay\n")
-    f.write("correct inside small bounds). Result = tier of `./vcheck.sh <ID>` that reports it.\n\n")
+    f.write("correct inside small bounds), `-xN` = round 3 (against a described strong verifier), `-b1` = round 4 (breadth),\n")
+    f.write("`-r1` = round 5 (value relations, element/key types, thresholds above 2^16, cross-object state, API histories).\n")
+    f.write("Result = tier of `./vcheck.sh <ID>` that reports it.\n\n")
     f.write("| change | result | violation signature(s) | what was changed |\n|---|---|---|---|\n")
     for r in rows:
         f.write(f"| {r[0]} | {r[2]} | `{r[3]}` | {r[4].replace('|', '/')} |\n")
     det = sum(1 for r in rows if r[2].startswith('DETECTED'))
     f.write(f"\n{det} of {len(rows)} detected.\n")
+    for d in sorted(glob.glob('/verif/seeded/C*-*')):
+        if os.path.exists(d + '/meta.json'):
+            m = json.load(open(d + '/meta.json'))
+            if m.get('note'):
+                f.write(f"\n**{os.path.basename(d)}** - {m['note']}\n")
 print(len(rows), "rows")
